@@ -357,3 +357,16 @@ pub fn catch<R>(f: impl FnOnce() -> R) -> Result<R, PanicInfo> {
         }
     }
 }
+
+/// Runs one case; a panic that escapes the monitored calls (raised by crustabri while the harness
+/// was merely inspecting a framework, or a harness bug) is recorded and the case counted as
+/// inconclusive instead of killing the shard.
+pub fn guarded(ctx: &mut Ctx, f: impl FnOnce(&mut Ctx)) {
+    let r = catch(|| f(ctx));
+    if let Err(p) = r {
+        ctx.inconclusive("panic-escaped-a-monitored-call");
+        let in_repo = p.loc.contains("/repo/src") || p.loc.starts_with("src/") && !p.loc.contains("harness");
+        ctx.count(if in_repo { "escaped_panics/raised-in-crustabri" } else { "escaped_panics/other" });
+        eprintln!("escaped panic at {}: {}", p.loc, p.msg);
+    }
+}
